@@ -78,6 +78,14 @@ class C15(PropertyCheck):
             fixed.append([(b"x.bin", bytes((7 * j + 1) % 256 for j in range(L)))])
         for L in range(0, 34):                                      # name-table length sweeps the padding boundary
             fixed.append([(b"n" * L, b"\x01\x02"), (b"m", b"\x03" * 33)])
+        # long names of mixed one-byte / two-byte characters: a two-byte character straddles every 64- and 256-byte offset of some name
+        # (seeded change C15-6 decoded names in fixed 64-byte blocks)
+        kanji = bytes.fromhex("955c")     # U+8868, second byte 0x5C
+        kana = bytes.fromhex("82a0")
+        for lead in (b"a", b"abc", b"", bytes.fromhex("b1")):
+            for unit in (kanji, kana):
+                for n in (31, 32, 33, 64, 127, 128, 130):
+                    fixed.append([(lead + unit * n, b"\x01"), (b"z" + lead, b"")])
         for files in fixed:
             cases.append(Case("packser " + packlib.files_tokens(files), "serialize"))
         for _ in range(nser):
